@@ -1,8 +1,12 @@
 import TLVerif.Codec.Ops.TL2
 import TLVerif.Codec.Ops.Json
 import TLVerif.Codec.Zero
-/-! `codec.seqx`: mixed-encoding decode histories into one object. The model has no object to reuse: every step is
-the fresh decode of its own input (that is the statement of C09), `r:-` is the zero value. -/
+import TLVerif.Codec.Reuse
+/-! `codec.seqx`: mixed-encoding decode histories into one object.  ONE memory object (`Reuse.Mem`) is threaded through
+the history: TL1 steps read INTO it (`Reuse.readInto`: in-place reads, else-branch resets, stale variants / slice tails,
+dirty state after an error), `r:-` is `Reuse.resetMem`; both are printed through `Reuse.abs`.  TL2 and JSON steps are
+tie-only: the model has no reuse model of those readers, a successful step stores its freshly decoded value
+(`Mem.ofVal`, no stale storage), a failed one leaves the object as it was. -/
 namespace TLVerif.Codec
 open TLVerif.Util TLVerif.Prim
 
@@ -10,52 +14,62 @@ def stateStr (d : Desc) (fuel ty : Nat) (w1b : String) (v : Val) (withTL2 : Bool
   let w2 := if withTL2 && tyHasTL2 d ty then outW2 (writeTop d fuel ty v) else "n/a"
   s!"ok w1b={w1b} w2={w2}"
 
-def stepX (sc : Schema) (ty : Nat) (st : String) : String :=
+def stepX (sc : Schema) (ty : Nat) (old : Reuse.Mem) (st : String) : Reuse.Mem × String :=
   let d := sc.desc
   match st.splitOn ":" with
   | [k, h] =>
     match bytesOfHex h with
-    | none => "bad-op"
+    | none => (old, "bad-op")
     | some bs =>
       let fuel := fuelFor d bs.length
       if k == "1" then
-        if originTL2 d ty then errStr .rej else
-        match readTL1 sc.cfg d fuel ty false [] bs with
-        | .error e => errStr e
-        | .ok (v, _) => stateStr d fuel ty (if hasBoxed d ty then outBytes (writeTL1 d fuel ty false [] v) else "n/a") v true
+        if originTL2 d ty then (old, errStr .rej) else
+        match Reuse.readInto sc.cfg d fuel ty false [] old bs with
+        | (m, .error e) => (m, errStr e)
+        | (m, .ok _) =>
+          let v := Reuse.abs m
+          (m, stateStr d fuel ty (if hasBoxed d ty then outBytes (writeTL1 d fuel ty false [] v) else "n/a") v true)
       else if k == "2" then
-        if !tyHasTL2 d ty then "n/a" else
+        if !tyHasTL2 d ty then (old, "n/a") else
         match readTop d fuel ty bs with
-        | .error e => errStr e
+        | .error e => (old, errStr e)
         | .ok (v, _) =>
           let w1b := if tyOriginTL2 d ty || !hasBoxed d ty then "n/a" else outBytes (writeTL1Z d fuel ty false [] v)
-          stateStr d fuel ty w1b v true
+          (Reuse.Mem.ofVal v, stateStr d fuel ty w1b v true)
       else if k == "j" then
         match parseJson bs with
-        | none => "err rej"
+        | none => (old, "err rej")
         | some j =>
           match readJson d false parseJson (jsonFuel d bs.length) ty [] (some j) with
-          | .error .rej => "err rej"
-          | .error e => "!" ++ errStr e
-          | .ok v => s!"ok w1b={boxedOut d (jsonFuel d bs.length) ty v} w2=n/a"
+          | .error .rej => (old, "err rej")
+          | .error e => (old, "!" ++ errStr e)
+          | .ok v => (Reuse.Mem.ofVal v, s!"ok w1b={boxedOut d (jsonFuel d bs.length) ty v} w2=n/a")
       else if k == "r" then
         match Z.zeroVal d (fuelFor d 64) ty with
-        | none => "model-err zero"
-        | some z =>
+        | none => (old, "model-err zero")
+        | some _ =>
+          let m := Reuse.resetMem d (fuelFor d 64) ty old
           -- TL1 sees a constant-mask field as present (zero value written); the hidden TL2 presence bits of a Reset object are all clear
-          let w1b := if originTL2 d ty || !hasBoxed d ty then "n/a" else outBytes (writeTL1 d (fuelFor d 64) ty false [] z)
+          let w1b := if originTL2 d ty || !hasBoxed d ty then "n/a" else outBytes (writeTL1 d (fuelFor d 64) ty false [] (Reuse.abs m))
           let w2 := if tyHasTL2 d ty then
               outW2 (writeTop d (fuelFor d 64) ty (zeroVal d (fuelFor d 64) ty))
             else "n/a"
-          s!"ok w1b={w1b} w2={w2}"
-      else "bad-op"
-  | _ => "bad-op"
+          (m, s!"ok w1b={w1b} w2={w2}")
+      else (old, "bad-op")
+  | _ => (old, "bad-op")
+
+def seqX (sc : Schema) (ty : Nat) : Reuse.Mem → List String → List String
+  | _, [] => []
+  | old, st :: rest =>
+    let r := stepX sc ty old st
+    r.2 :: seqX sc ty r.1 rest
 
 def handleReuse : OpHandler := fun st op args =>
   match op, args with
   | "seqx", sid :: ty :: _name :: steps =>
     match st.lookup sid, ty.toNat? with
-    | some sc, some ty => some (" | ".intercalate (steps.map (stepX sc ty)))
+    | some sc, some ty =>
+      some (" | ".intercalate (seqX sc ty (Reuse.freshMem sc.desc (fuelFor sc.desc 64) ty) steps))
     | _, _ => some "bad-op"
   | _, _ => none
 
